@@ -168,7 +168,8 @@ theorem C08_select (f : Obj) (t : Tree) (p : List String) (opt : TreeOpt) (r : R
     | yes =>
       simp only [readNodeFull_encode d hdw.1, hne, Bool.false_eq_true, if_false]
     | below =>
-      simp only [populate_encode d hdw.1]
+      have hg : (encode d).isGroup = true := by cases d; rfl
+      simp only [populate_encode d hdw.1, hg, Bool.not_true, Bool.false_eq_true, if_false]
 
 /-- a path that does not resolve below the root group is refused, whatever the tree option -/
 theorem C08_missing (f rootgroup : Obj) (rootname : String) (p : List String) (opt : TreeOpt) (e : Err)
